@@ -1,6 +1,7 @@
 import Proofs.C13
 import Proofs.C13Streams
 import Proofs.C13Newline
+import Proofs.C13Csv
 /-!
 # C13 — output reaches each destination completely, in order, exactly once
 
@@ -394,5 +395,60 @@ example : printBytes true [120, 13] [32] [10] [] = [120, 13, 13, 10] := by decid
 example : printBytes false [] [32] [10] [[97, 13, 10]] = [97, 13, 10, 10] := by decide
 example : lower (Fmt.init true) [.setORS [13], .print none [[97]], .printf (some (.gt, [102])) [10, 98]] =
     [.print [97, 13], .printTo .gt [102] [13, 10, 98]] := by decide
+
+/-! ### the CSV / TSV output mode: every record is delivered completely and in order
+
+In OUTPUTMODE csv / tsv a `print` with arguments hands ONE encoded record (`csvRecord`) to its destination — whatever the
+destination is (the statement is lowered to the same `print` / `printTo` operation as any other, so every theorem above about
+standard output, files and commands applies to the encoded bytes). -/
+
+/-- what a `print` with arguments becomes in a CSV mode: one operation carrying the encoded record; OFS, ORS and `$0` play no part -/
+theorem csv_print_lowers (f : Fmt) (sep : Bytes) (h : f.csv = some sep) (d : Option (Redir × Name)) (a : Bytes) (args : List Bytes)
+    (rest : List Stmt) :
+    lower f (.print d (a :: args) :: rest) = emit d (csvRecord sep f.crlf (a :: args)) :: lower f rest := by
+  simp [lower, printStmtBytes, h]
+
+/-- a bare `print` and `printf` are not affected by the output mode -/
+theorem csv_mode_bare_print (f : Fmt) (d : Option (Redir × Name)) (rest : List Stmt) :
+    lower f (.print d [] :: rest) = emit d (printBytes f.crlf f.line f.ofs f.ors []) :: lower f rest := by
+  cases h : f.csv <;> simp [lower, printStmtBytes, h]
+
+/-- COMPLETENESS of the CSV mode (raw newline mode, any one-byte separator other than `"` and LF): reading what a destination
+received for ANY sequence of printed records (every record has at least one field; the fields are arbitrary bytes: separators,
+quotes, CR, LF, leading blanks, `\.`, empty) with a plain RFC-4180 reader gives back exactly those records, field by field, in
+order — nothing is lost, split or merged, inside a record or across record boundaries. -/
+theorem csv_mode_complete (c : UInt8) (hc : c ≠ 34 ∧ c ≠ 10) (rs : List (List Bytes)) (hrs : ∀ r ∈ rs, r ≠ []) :
+    csvRead c (rs.map (csvRecord [c] false)).flatten .fieldStart [] [] [] = some rs := by
+  simpa using csvRead_records c hc rs hrs []
+
+/-- the record of one empty field is written as `""` (a bare line end would read back as no record at all in GoAWK's own reader) -/
+theorem csv_empty_field_record (sep : Bytes) (crlf : Bool) : csvRecord sep crlf [[]] = [34, 34] ++ csvEol crlf := by
+  simp [csvRecord]
+
+/-- the names of this section are what they seem: two different names are two streams. Closing, flushing or writing under
+another name `m` (for instance another spelling of the same path) leaves the open output stream `n` open, with the same log. -/
+theorem two_names_two_streams (b : Beh) (s : St) (n m : Name) (st : Stream) (hf : find n s.streams = some st) (hk : st.kind ≠ .rd)
+    (hne : m ≠ n) (op : Op) (hop : op = .close m ∨ op = .fflush m ∨ ∃ rd c, op = .printTo rd m c) :
+    ∃ st', find n (step b s op).1.streams = some st' ∧ st'.kind = st.kind ∧ st'.log = st.log := by
+  have hcl : op ≠ .close n := by
+    rcases hop with h | h | ⟨rd, c, h⟩ <;> subst h <;> simp [hne]
+  obtain ⟨st', h1, h2, _, h4⟩ := step_entry b s op n st hf hk hcl
+  refine ⟨st', h1, h2, ?_⟩
+  rcases hop with h | h | ⟨rd, c, h⟩ <;> subst h <;> simpa [opWrite, hne] using h4
+
+/-- … and `close` of a name that is not open (however close its spelling is to an open one) closes nothing and returns -1 -/
+theorem close_unopened_name (b : Beh) (s : St) (m : Name) (h : find m s.streams = none) : step b s (.close m) = (s, .num (-1)) := by
+  simp [step, h]
+
+example : csvRecord [44] false [[97], [98, 44, 99], [], [34], [32, 120], [92, 46]] =
+    [97, 44, 34, 98, 44, 99, 34, 44, 44, 34, 34, 34, 34, 44, 34, 32, 120, 34, 44, 34, 92, 46, 34, 10] := by decide
+example : csvRecord [59] true [[97, 13, 10, 98], [99]] = [34, 97, 13, 10, 98, 34, 59, 99, 13, 10] := by decide
+example : csvRead 44 (csvRecord [44] false [[97], [98, 44, 99], [], [34]] ++ csvRecord [44] false [[]]) .fieldStart [] [] [] =
+    some [[[97], [98, 44, 99], [], [34]], [[]]] := by decide
+example : (44 : UInt8) ≠ 34 ∧ (44 : UInt8) ≠ 10 := by decide
+example : lower { Fmt.init false with csv := some [44] } [.setOFS [45], .print none [[97], [98, 44]], .print none [], .setOM none, .print none [[97], [98]]] =
+    [.print [97, 44, 34, 98, 44, 34, 10], .print [10], .print [97, 45, 98, 10]] := by decide
+example : (find [102] (step echoBeh (after echoBeh (St.init true none []) [.printTo .gt [102] [120]]) (.close [46, 47, 102])).1.streams).map (·.log) =
+    some [120] ∧ (step echoBeh (after echoBeh (St.init true none []) [.printTo .gt [102] [120]]) (.close [46, 47, 102])).2 = .num (-1) := by decide
 
 end GoawkModel.C13.Props
